@@ -13,7 +13,10 @@ SPEC = {
         # Concurrent tier: lookups while the table is changed through the admin
         # handlers; every answer must be the answer of one table in force.
         {"name": "concurrent", "pkg": "./internal/filtering/", "run": "^TestVerifC06Concurrent$",
-         "harness": ["filtering/c06_*.go"], "race": True, "timeout_quick": 900, "timeout_thorough": 3000},
+         "harness": ["filtering/c06_*.go"], "race": True, "timeout_quick": 420, "timeout_thorough": 3000,
+         # "Evaluation always terminates": a lookup or handler call that never
+         # returns ends in the test deadline, with the goroutine dump as witness.
+         "hang_is_violation": True},
         # Wire tier: the DNS reply, question and upstream traffic must render the
         # product's own filtering result faithfully.
         {"name": "wire", "pkg": "./internal/dnsforward/", "run": "^TestVerifC06Wire$",
